@@ -12,5 +12,5 @@ CONSTANTS
   Triggers = {0, 1, 2}
 VIEW view
 INVARIANTS TypeOK QpsOK AvgRtOK MinRtOK PeakOK ConcOK LoneRequestNeverShed
-  AllBBRWeaker AllUnsampledNeverBlocks AllGate AllMonotoneInTrigger
+  AllBBRWeaker AllUnsampledNeverBlocks AllMonotoneInTrigger
 CHECK_DEADLOCK FALSE
